@@ -32,7 +32,7 @@
  "name": "unix_write_blk64_c1",
  "props": ["C17"],
  "level": "U",
- "tier": "wip",
+ "tier": "quick",
  "harness": "h_write_cached",
  "enforce": ["unix_write_blk64"],
  "replace": ["reuse_cache", "flush_cached_blocks", "raw_write_blk"],
@@ -52,7 +52,7 @@
  "name": "unix_write_blk64_c1_1k",
  "props": ["C17"],
  "level": "U",
- "tier": "wip",
+ "tier": "thorough",
  "harness": "h_write_cached",
  "enforce": ["unix_write_blk64"],
  "replace": ["reuse_cache", "flush_cached_blocks", "raw_write_blk"],
@@ -72,7 +72,7 @@
  "name": "unix_write_blk64_c2",
  "props": ["C17"],
  "level": "B(2)",
- "tier": "wip",
+ "tier": "thorough",
  "harness": "h_write_cached",
  "enforce": ["unix_write_blk64"],
  "replace": ["reuse_cache", "flush_cached_blocks", "raw_write_blk"],
